@@ -52,6 +52,22 @@ class CycY(Middleware):
         return next(cy='cy')
 
 
+class RouteMarkMW(Middleware):
+    """route-level middleware (listed on the Route itself): marks the responses of that route wherever it is bound"""
+    unique = False
+
+    def __init__(self, mark):
+        self.mark = mark
+
+    def request(self, next):
+        resp = next()
+        try:
+            resp.headers['X-Route-Mark'] = self.mark
+        except Exception:
+            pass
+        return resp
+
+
 class StampMW(Middleware):
     """application-level middleware configured per application: marks every response that passes through it."""
 
@@ -104,7 +120,8 @@ class Pool(object):
             e = self.cfg['routes'][r]
             rr = dict((n, 'rv') for n in e.get('route_res', []))
             obj = Route(e['pattern'], R.make_endpoint(e['tag'], e['out']), 'tmpl' if e['out'] == 'ctx' else None,
-                        methods=e['methods'], resources=rr)
+                        methods=e['methods'], resources=rr,
+                        middlewares=[RouteMarkMW('mark-' + e['tag'])] if e.get('route_mw') else [])
             self.routes[r] = (obj, e, self.snapshot(obj))
         return self.routes[r][0]
 
@@ -119,7 +136,8 @@ class Pool(object):
                 'methods': e['methods'], 'out': e['out'], 'tag': e['tag'],
                 'res': sorted(set(self.res[i]) | set(e.get('route_res', []))), 'nr': bool(self.cfg['apps'][i].get('nr_mw')),
                 'render': ('F%d' % i) if (e['out'] == 'ctx' and self.cfg['apps'][i].get('factory')) else None, 'chain': [i],
-                'stamp': ('S%d' % i) if self.cfg['apps'][i].get('stamp') else None}
+                'stamp': ('S%d' % i) if self.cfg['apps'][i].get('stamp') else None,
+                'route_mark': ('mark-' + e['tag']) if e.get('route_mw') else None}
 
     def embedded_entry(self, entry, i, prefix, rebind=False):
         """Model entry of an already bound entry re-bound into application i under prefix.
@@ -159,7 +177,7 @@ class C11(Check):
                   'failure positions are few and swept: k in 0..2 for embedded applications and constructor lists); histories are sampled.')
     level_note = 'Trusted: the model routing tables and the dispatch model shared with C06.'
     forbidden_probes = ('failing-op-succeeded',)
-    required_probes = ('re-embedded-after-an-inner-application-was-dropped', 'application-reference-dropped-while-embedded', 'child-changed-after-subapplication-was-made', 'one-route-in-two-applications-with-equal-typed-stacks', 'sub-kth-fails-with-other-exception-type', 'strict-application', 'context-rendered-by-factory', 'embed-with-rebind-render', 'failed-add-unchanged', 'sub-kth-fails-unchanged', 'ctor-failed', 'route-bound-twice', 'embedded-then-child-changed',
+    required_probes = ('route-with-own-middleware-bound-twice', 're-embedded-after-an-inner-application-was-dropped', 'application-reference-dropped-while-embedded', 'child-changed-after-subapplication-was-made', 'one-route-in-two-applications-with-equal-typed-stacks', 'sub-kth-fails-with-other-exception-type', 'strict-application', 'context-rendered-by-factory', 'embed-with-rebind-render', 'failed-add-unchanged', 'sub-kth-fails-unchanged', 'ctor-failed', 'route-bound-twice', 'embedded-then-child-changed',
                        'embed-depth-2', 'add-at-index')
 
     # ---- generation --------------------------------------------------------
@@ -175,7 +193,7 @@ class C11(Check):
         routes = []
         for k in range(c.randint(3, 8)):
             routes.append({'pattern': c.choice(pats), 'methods': c.choice(R.METHOD_SETS), 'out': c.choice(R.OUTCOMES + ['ctx'] * 4),
-                           'tag': 'R%d' % k, 'route_res': ['rr%d' % k] if c.random() < 0.3 else []})
+                           'tag': 'R%d' % k, 'route_res': ['rr%d' % k] if c.random() < 0.3 else [], 'route_mw': c.random() < 0.5})
         ops = []
         tagn = [0]
 
@@ -509,6 +527,11 @@ class C11(Check):
             elif e['out'] == 'ctx' and got['rendered_by'] != e['render']:
                 bad = ('rendered-by-wrong-factory', 'rendered by %r, expected the renderer of %r (bound through applications %r)'
                        % (got['rendered_by'], e['render'], e['chain']))
+            if bad is None and got['status'] == 200 and got.get('route_mark') != e.get('route_mark'):
+                bad = ('route-level-middleware-lost', 'response marked %r by the route\'s own middleware, expected %r (bound through %r)'
+                       % (got.get('route_mark'), e.get('route_mark'), e['chain']))
+            if bad is None and got['status'] == 200 and e.get('route_mark') and len([1 for m in pool.model.values() for x in m if x['tag'] == e['tag']]) > 1:
+                res.probe('route-with-own-middleware-bound-twice')
             if bad is None and got['status'] == 200 and got.get('stamp') != e.get('stamp'):
                 bad = ('passed-through-wrong-middleware-instance', 'response marked by %r, expected the middleware instance %r of the '
                        'outermost application it is bound through (%r)' % (got.get('stamp'), e.get('stamp'), e['chain']))
